@@ -63,6 +63,12 @@ def run(name, pids, tier='quick'):
             rc = 0 if o.strip() and '<<<<<<<' not in o else 1
     assert rc == 0, o
     res = {}
+    # evidence files are rewritten by every check run: keep the ones from the clean tree
+    saved = {}
+    for pid in pids:
+        ev = os.path.join(VERIF, 'evidence', pid + '.json')
+        if os.path.exists(ev):
+            saved[ev] = open(ev).read()
     try:
         for pid in pids:
             t = time.time()
@@ -81,6 +87,8 @@ def run(name, pids, tier='quick'):
                         pass
     finally:
         sh('git -C /repo checkout -- . && git -C /repo clean -fdq')
+        for ev, txt in saved.items():
+            open(ev, 'w').write(txt)
         # coq/gen was regenerated from the patched tree: bring it back to the clean tree
         sh('PYTHONPATH=/repo:%s/tools /venv/bin/python %s/tools/translate.py --out %s/coq/gen' % (VERIF, VERIF, VERIF))
     mp = os.path.join(dst, 'meta.json')
